@@ -118,6 +118,29 @@ def is_template_parse_payload(an, prog, e, body, adt, field):
     return False, None
 
 
+def validity_predicates(prog, an, ca=None):
+    """{cache field: Callee} - the bool-returning crate call on the stored value whose true edge dominates each IPFIX
+    cache write (found by role, as in rule_valid_before_insert; the name is free)."""
+    ca = ca or CacheAccess(prog, an)
+    out = {}
+    for w in write_sites(prog, an, ca):
+        if w["adt"] != "variable_versions::ipfix::IPFixParser" or w["kind"] not in ("insert", "extend"):
+            continue
+        b = w["body"]
+        vcore = canon(peel(w["val"]))
+        for blk in sorted(b.live_blocks()):
+            t = b.term(blk)
+            if t["k"] != "switch" or t.get("opty") != "bool":
+                continue
+            e, neg = strip_not(an.op(b, t["op"]))
+            if not (e[0] == "call" and e[2] is not None and e[2].local and e[3]):
+                continue
+            be = bool_edges(t, neg)
+            if be and canon(peel(e[3][0])) == vcore and b.edge_dominates((blk, be[0]), w["block"]):
+                out[w["field"]] = e[2]
+    return out
+
+
 def rule_valid_before_insert(ctx, prog, an, rule, ca=None):
     """IPFIX cache writes are dominated by <validity predicate>(stored template)==true, and that predicate reads
     TemplateField.field_length. The predicate is found by role: the crate function / trait method returning bool
@@ -329,8 +352,10 @@ def no_rejection_between(ctx, an, rule, adt, field, b, w, pcall):
            else "%d branch(es) after the parse can skip the cache write; each tests the stored records only (stored: %s)" % (nsw, "the parsed value" if whole[0] else sorted(names)), site=b.line(bad[0][0]) if bad else b.line(wb))
 
 
-def rule_learned_in_stream_order(ctx, prog, ca, rid):
+def rule_learned_in_stream_order(ctx, prog, ca, rid, only=None):
     proto_of = {"V9Parser": "variable_versions::v9::", "IPFixParser": "variable_versions::ipfix::"}
+    if only:
+        proto_of = {k: v for k, v in proto_of.items() if k == only}
     root = PARSE_ROOTS[0]
     done = set()
     n = 0
@@ -358,7 +383,7 @@ def rule_learned_in_stream_order(ctx, prog, ca, rid):
         ctx.ob(rid, wp, "reached-through-the-flowset-decode", not bad,
                ("%s writes %s.%s and is reachable from parse_bytes without passing through %sFlowSet::parse%s" % (wp, w["adt"].rsplit("::", 1)[1], w["field"], pre, how)) if bad
                else "%s (writes %s) is only reachable through %sFlowSet::parse" % (wp, w["adt"].rsplit("::", 1)[1], pre), site=site(w["body"].span))
-    ctx.floor(rid, "crate", "cache-writing functions", n, 2)
+    ctx.floor(rid, "crate", "cache-writing functions", n, 1 if only else 2)
 
 
 def run(ctx, env):
@@ -422,6 +447,9 @@ def run(ctx, env):
     # R6.9
     ctx.rule("R6.9", "templates are learned in stream order: every function that writes a template cache is reached from parse_bytes only through the per-flowset / per-set decode call of its protocol (FlowSet::parse), i.e. one flowset at a time at the repetition's cursor - no look-ahead pass installs a later definition before an earlier data flowset is decoded")
     rule_learned_in_stream_order(ctx, prog, ca, "R6.9")
+    ctx.rule("R6.12", "a well-formed IPFIX template record is learned: the validity predicate that can keep a parsed record out of the cache accepts the corner combinations of field_count / scope_field_count RFC 7011 allows (shared with C05 R5.13)")
+    from . import c05 as _c05v
+    _c05v.validity_accepts_wellformed(ctx, prog, an, "R6.12")
     # R6.10
     ctx.rule("R6.10", "packets of disallowed versions leave the caches untouched: every call of the V9 / IPFIX parser (the only functions through which a cache is written, R6.9) is reachable only through the true edge of the single allowed_versions gate of its dispatcher (shared with C12 R12.1)")
     from . import c12 as _c12
